@@ -14,7 +14,7 @@ const trustDeps = "dependencies (spec, analysis, swag, strfmt, errors, loads, re
 
 func init() {
 	Properties["C04"] = PropSpec{
-		Rules:          []Rule{PoolCtor, PoolAPI, ResLinear, RedeemGuard, Slots},
+		Rules:          []Rule{OptionsKept, PoolCtor, PoolAPI, ResLinear, RedeemGuard, Slots},
 		DebugConfigToo: true,
 		Explanation:    "Decides the complete structural argument the code relies on for recycling safety, on every path and call order: POOL-CTOR/POOL-CLEARED (a borrowed validator has every field assigned before it is returned and no field is read before assignment, directly or via methods of the half-built object; a recycled Result is reset leaf field by leaf field; scratch schemas are overwritten as a whole before any use); POOL-API (sync.Pool only inside Borrow*/Redeem*, Redeem<T> only from (*T).redeem, redeem() only from the deferred closure of the type's own Validate or on a child held in a slot, resetPools only at init, emptyResult refused by RedeemResult); EMPTY-IMMUTABLE (no mutating use of a value that may be the shared empty result); RES-LINEAR (forward may-dataflow per function with derived consuming positions: no use, return or second release of a pooled result after the call that released it, deferred releases take effect at RunDefers); SLOT-PRECLEAR/POSTCLEAR/INIT/SELFREDEEM/ONESHOT (typestate of child validators in slots: emptied under the recycle option before the child runs, emptied after a release, filled only in the parent's constructor from distinct constructor calls, self-release deferred once under the guard, fresh validators run once); DEFER-INIT. EMPTY-ESCAPE: no exported entry point can hand the shared empty result to a caller (one did, through a nil validator: fixed). REDEEM-GUARD API mode (an exported Validate takes its result from the pool only on the true side of the result-recycling option); POOL-CLEARED zero (every leaf field of a recycled Result is reset to its zero value, the pooled mark excepted).",
 		NotDecided:     "That outcomes equal those of a fresh process (behavioural); aliasing carried through dependencies; leaks (not violations).",
@@ -28,7 +28,7 @@ func init() {
 		Assumptions:    []string{"lock held at both accesses implies no data race", "sync.Pool hands an object to one borrower at a time", trustDeps},
 	}
 	Properties["C08"] = PropSpec{
-		Rules:       []Rule{Setter, Stateless, Slots, PoolAPI, ResLinear, OptionsRoundTrip, MapOrder("(*SchemaValidator).Validate", "(*ParamValidator).Validate", "(*HeaderValidator).Validate")},
+		Rules:       []Rule{OptionsKept, Setter, Stateless, Slots, PoolAPI, ResLinear, OptionsRoundTrip, MapOrder("(*SchemaValidator).Validate", "(*ParamValidator).Validate", "(*HeaderValidator).Validate")},
 		Explanation: "STATELESS effect analysis over every function: each store into a field (or element of an array/slice/map held in a field) of the 13 validator types outside their constructors, and each call of a receiver-mutating method (summaries computed, interface dispatch resolved by method name over the implementations), is (i) guarded by the recycle option (directly or because the enclosing function is recycle-only, greatest fixpoint over call sites), (ii) applied to an object constructed in the same activation, or (iii) applied to an ephemeral type whose every instance is created, run once and dropped. SLOT-INIT: children are built only in the parent's constructor from distinct constructor calls; SLOT-ONESHOT: per-element validators are fresh. OPTIONS-ROUNDTRIP: every option returned by SchemaValidatorOptions.Options() restores exactly the field it was read from and every field is replayed, so a validator configured from another one's options is not silently switched to the one-shot recycling mode. EMPTY-ESCAPE as for C04. SETTER.",
 		NotDecided:  "Determinism of dependencies; lazy spec.ExpandSchema on sub-schemas that still contain $ref; equality of message sets across repetitions (behavioural). Confirmed by probing: a validator reused on items: {$ref: '#'} or on a pointer through a lazily expanded location changes its verdict between calls.",
 		Assumptions: []string{"validator state = fields of the validator types; caller-supplied registries are outside", trustDeps},
@@ -146,7 +146,7 @@ func init() {
 			"PURE:UniqueItems:numeric-equality":                  "same: every number of a decoded document is a float64",
 			"TYPE-TABLE:typeValidator:integrality-tolerance":     "every integer-typed member of a Swagger document is an *int64 of the typed model: a document with a fractional value there does not load",
 		},
-		Rules:       []Rule{KeyExemption, NilPath, MustPass, RuleSeq, ResultAlgebra, Keywords("SchemaValidator", schemaKeywords, "schema_ctor_calls"), Counting, Orderings, Pure, ArgRole, TypeTable, ObjectRouting, SliceRouting, KeywordRouting, KeywordPred, KeywordGuard, EnumConvert, KConsistent, GuardScope},
+		Rules:       []Rule{OptionsKept, KeyExemption, NilPath, MustPass, RuleSeq, ResultAlgebra, Keywords("SchemaValidator", schemaKeywords, "schema_ctor_calls"), Counting, Orderings, Pure, ArgRole, TypeTable, ObjectRouting, SliceRouting, KeywordRouting, KeywordPred, KeywordGuard, EnumConvert, KConsistent, GuardScope},
 		Explanation: "SCHEMA-PASS clauses shared with C01, because the first pass is the schema validator run on the Swagger schema (anchors object_validator.go, schema_props.go): KEYWORDS — every keyword the Swagger schema uses (type, enum, pattern, min/max*, required, properties, patternProperties for x- extensions, additionalProperties:false, allOf/anyOf/oneOf/not, items, uniqueItems, format) reaches a sub-validator field that is read while validating; MEMBER-GUARD / K-CONSISTENT — every member of every object and array of the document is validated against its schema whatever its name or value (an exemption for a name such as 'id' silently accepts an invalid entry of definitions/properties/headers); KEYWORD-GUARD — no constraint helper is conditioned on the instance; COUNTING — oneOf over the parameter kinds is decided exactly (none / exactly one / several valid); ROUTING — in every configuration of properties / patternProperties / additionalProperties a member is handed to the pattern matcher and, when undeclared and unmatched, to the additionalProperties schema; ENUM-CONVERT. MUST-PASS: in (*SpecValidator).Validate the validation of json.Unmarshal(doc.Raw()) against the validator's Swagger schema, built with the validator's schemaOptions, dominates every other rule and every verdict-returning exit; NewSpecValidator applies SwaggerSchema(true) (both strictness flags) to those options; the result is merged with Merge into the error accumulator (RULE-SEQ) whose errors only grow (RESULT-ALGEBRA / RES-ALIAS: append-only writes); Spec() returns nil exactly on !errs.HasErrors(); each expanded parameter is re-validated against #/definitions/parameter and merged. KEY-EXEMPTION: the forbidden-property error is not control dependent on member names (\"id\" and \"$schema\" are exempt: known finding, the embedded fixture relies on it). NILPATH as for C01 (known finding with Swagger inputs).",
 		NotDecided:  "That the schema pass itself is right for the 1600-line Swagger schema: that is C01 (draft-4 agreement), which is value-level.",
 		Assumptions: []string{trustDeps},
@@ -238,7 +238,7 @@ func init() {
 		Assumptions: []string{trustDeps},
 	}
 	Properties["C19"] = PropSpec{
-		Rules:       []Rule{Schemata, SchemataModel, KConsistent, ResultAlgebra, ResLinear, GuardScope, ObjectRouting, SliceRouting, KeywordRouting},
+		Rules:       []Rule{OptionsKept, Schemata, SchemataModel, KConsistent, ResultAlgebra, ResLinear, GuardScope, ObjectRouting, SliceRouting, KeywordRouting},
 		Explanation: "SCHEMATA/POST as for C18, and for pruning: pruneObject's single write is delete(obj, field) with field ranging over obj, decided by FieldSchemata()[NewFieldKey(obj, field)] of the same object and member; prune recurses into every map value and slice element. K-CONSISTENT: the result of validating a member (declared, pattern or additional property, tuple / additional / list item) is filed under (container, that member's own key or index), so a described member has schemata and an undescribed one has none. Loop exhaustion: the traversal loops of prune / pruneObject are left only by exhaustion; recursion depends only on the element's dynamic type. SCHEMATA-MODEL.",
 		NotDecided:  "As C18; idempotence of pruning.",
 		Assumptions: []string{trustDeps},
